@@ -136,3 +136,33 @@ Theorem C16_inline_filter : forall k evs log err done,
   (length log <= S k)%nat /\ (length log = S k <-> err = SF.Core.Visitors.EoTarget).
 Proof. exact SF.Core.VisitorsProofs.C16_inline_filter_top. Qed.
 Print Assumptions C16_inline_filter.
+
+(* A caller that does not stop at the first error.  Parser.Write (all formats) and Parser.Parse
+   (cborl, ubjson) start with `if p.err != nil { return p.err }` and record their result
+   (Core/Latch.v wraps exactly that around the component models).  Once a call has returned an
+   error, every further Write / Parse returns that same error, the visitor sees no further event
+   of the failed document, and the parser state is not touched again. *)
+From SF Require Core.Latch Core.LatchProofs.
+Theorem C16_failed_document_stays_failed_cbor : forall st s i st' s' e,
+  SF.Core.Latch.latched SF.Cbor.Parse.isnil SF.Core.LatchProofs.cbor_call st s i = Ok (st', s', e) ->
+  SF.Cbor.Parse.isnil e = false ->
+  (forall e0, snd st = Some e0 -> SF.Cbor.Parse.isnil e0 = false) ->
+  forall is, SF.Core.Latch.latched_all SF.Cbor.Parse.isnil SF.Core.LatchProofs.cbor_call st' s' is e = Ok (st', s', e).
+Proof. exact SF.Core.LatchProofs.cbor_failed_stays_failed. Qed.
+Print Assumptions C16_failed_document_stays_failed_cbor.
+
+Theorem C16_failed_document_stays_failed_ubj : forall st s i st' s' e,
+  SF.Core.Latch.latched SF.Ubjson.Parse.unil SF.Core.LatchProofs.ubj_call st s i = Ok (st', s', e) ->
+  SF.Ubjson.Parse.unil e = false ->
+  (forall e0, snd st = Some e0 -> SF.Ubjson.Parse.unil e0 = false) ->
+  forall is, SF.Core.Latch.latched_all SF.Ubjson.Parse.unil SF.Core.LatchProofs.ubj_call st' s' is e = Ok (st', s', e).
+Proof. exact SF.Core.LatchProofs.ubj_failed_stays_failed. Qed.
+Print Assumptions C16_failed_document_stays_failed_ubj.
+
+Theorem C16_failed_document_stays_failed_json : forall pf st s i st' s' e,
+  SF.Core.Latch.latched SF.Json.Parse.jisnil (SF.Core.LatchProofs.json_call pf) st s i = Ok (st', s', e) ->
+  SF.Json.Parse.jisnil e = false ->
+  (forall e0, snd st = Some e0 -> SF.Json.Parse.jisnil e0 = false) ->
+  forall is, SF.Core.Latch.latched_all SF.Json.Parse.jisnil (SF.Core.LatchProofs.json_call pf) st' s' is e = Ok (st', s', e).
+Proof. exact SF.Core.LatchProofs.json_failed_stays_failed. Qed.
+Print Assumptions C16_failed_document_stays_failed_json.
